@@ -1,14 +1,45 @@
 /-
-  Driver.C18 — line protocol front end for property C18 (stub: not built yet).
+  Driver.C18 — C18 has no model-vs-code line protocol of its own (floats are never compared with
+  a model); the one family of its workload that *is* tied to a model is the text of `Display`
+  for integer tensors:
+
+    @ fmtint <shape> <base> <plain|prec|access:<names>>
+        the tensor holds base, -(base+1), base+2, … in row-major order; `prec` formats with
+        `{:.3}` (integers ignore the precision); `access:<names>` formats `index_by(names)`
+        → the full text, newlines written as `\n`
+
+  Every other line is answered `n/a` (props/c18_extra.py only sends the `fmtint` lines).
 -/
+import EasyMl.Model.Display
 import Driver.Parse
 
 namespace Driver.C18
+open EasyMl Driver
 
 abbrev State := Unit
 
 def init : State := ()
 
-def step (s : State) (_toks : List String) : State × String := (s, "unimplemented")
+def esc (s : String) : String := (s.replace "\\" "\\\\").replace "\n" "\\n"
+
+def step (s : State) (toks : List String) : State × String :=
+  match toks with
+  | ["@", "fmtint", sh, base, mode] =>
+    match parseShape sh, base.toInt? with
+    | some shape, some b =>
+      let n := elements shape
+      let data : List Int := (List.range n).map fun (i : Nat) =>
+        if i % 2 == 1 then -(b + Int.ofNat i) else b + Int.ofNat i
+      match Tensor.tryFrom shape data with
+      | none => (s, "rejected")
+      | some t =>
+        let text := match mode.splitOn ":" with
+          | ["access", names] => Display.formatAccess t (parseNames names)
+          | _ => Display.formatTensor t
+        (s, match text with
+          | some x => esc x
+          | none => "panic")
+    | _, _ => (s, "bad-op")
+  | _ => (s, "n/a")
 
 end Driver.C18
